@@ -316,6 +316,18 @@ def apply_op(cases, op, cov, log):
                                 lambda: mesh.vertex_from_coords(p))
                 if r is None:
                     raise Finding('target-vertex', site, {'pt': repr(p)})
+        elif kind == 'lookup':
+            # a client's read before (or between) the writes: the end points
+            # of a boundary segment are looked up, whether they exist yet or
+            # not.  The answer is not judged (the property promises retrieval
+            # only after targeting); the read is part of the history.
+            v0, v1 = case.segment(op)
+            for v in (v0, v1):
+                r, _ = run_impl(site, lambda: mesh.vertex_from_coords(
+                    to_form(v, op['form'])))
+                cov.inc('probe.lookup_found' if r is not None else
+                        'probe.lookup_of_a_point_that_is_no_vertex_yet')
+            cells = case.check_state(site, before)
         else:
             raise ValueError(kind)
         results.append(frozenset(cells))
@@ -406,6 +418,27 @@ def gen_run(seed, params):
             # the model does not predict targeting; generation continues from
             # a state in which the target chain is refined
             # (execution re-syncs the model from the implementation)
+    # reads in the history (own stream: runs without them stay what they
+    # were): the end points of a segment looked up before it is targeted,
+    # or of any segment at any time
+    lrng = stream(seed, 'workload-lookup')
+    if lrng.random() < params.get('p_lookup', 0.3):
+        out = []
+        for op in ops:
+            if op['op'] == 'target' and lrng.random() < 0.6:
+                out.append({'op': 'lookup', 'piece': op['piece'], 'l': op['l'],
+                            'k': op['k'],
+                            'form': lrng.choice(['tuple', 'list', 'array']),
+                            'order_seed': lrng.randrange(1 << 30)})
+            elif lrng.random() < 0.1:
+                l = lrng.choice([0, 1, 2, 3, 5, 8, 10])
+                out.append({'op': 'lookup',
+                            'piece': lrng.randrange(n_pieces), 'l': l,
+                            'k': lrng.randrange(1 << l),
+                            'form': lrng.choice(['tuple', 'list', 'array']),
+                            'order_seed': lrng.randrange(1 << 30)})
+            out.append(op)
+        ops = out
     return {'domain': domain, 'ops': ops}
 
 
